@@ -866,6 +866,13 @@ ObjCompare(c0, f, a, v) ==
            [] op = ">=" -> (IF HasMeta(c0, a, "@<") THEN Call("@<", "neg") ELSE RtErr(c0, "compare-types"))
            [] op = "<"  -> RtErr(c0, "compare-types")
 
+(* guide, Unpacking Iterable Values: "unpacking works with any iterable value".  An object that implements @next is asked
+   once per target; the guide does not say whether it is asked again after it has signalled the end, so a null before the
+   last target leaves the rest unspecified.  An object with @iterator (and no @next) is unpacked through the returned value. *)
+MPull(c, node, it, got) ==
+    IF Len(got) = Len(node.ns) THEN Rt([c EXCEPT !.env = BindSeq(@, node.ns, got, 1)], VBot)
+    ELSE MetaCall(c, MetaVal(c, it, "@next"), it, <<>>, [t |-> "mnext", node |-> node, it |-> it, got |-> got])
+
 (* the result of a metakey function arrives at its "metak" frame *)
 MetaReturn(c0, then, v) ==
     CASE then.t \in {"val", "binl"} -> Rt(c0, v)
@@ -890,6 +897,14 @@ MetaReturn(c0, then, v) ==
             Rt(c0, v)
       [] then.t = "next" ->       \* @next: null ends the iteration
             (IF v.t = "null" THEN Rt(c0, SigEnd) ELSE Rt(c0, SigOut(v)))
+      [] then.t = "mnext" ->
+            (IF IsBot(v) THEN Unspec(c0, "unpack-bot")
+             ELSE IF v.t = "null" /\ Len(then.got) + 1 < Len(then.node.ns) THEN Unspec(c0, "unpack-after-end")
+             ELSE MPull(c0, then.node, then.it, Append(then.got, v)))
+      [] then.t = "miter" ->
+            (LET el == ElemsOf(c0, v) IN
+             IF ~el.ok \/ ~(v.t \in {"tup", "ref", "rng", "str"}) THEN Unspec(c0, "unpack-kind")
+             ELSE Rt([c0 EXCEPT !.env = BindSeq(@, then.node.ns, el.s, 1)], VBot))
 
 (***************************************************************************)
 (* Apply: all operands of a strict node have been evaluated.               *)
@@ -947,9 +962,12 @@ Apply(c, node, vs) ==
                   IF r.ctl.m = "rt" THEN [r EXCEPT !.env = Bind(@, node.n, r.ctl.v)] ELSE r)
       [] node.k = "masg" ->
             \* a, b = e  (guide: Value Unpacking).  One RHS expression; value of the expression: unspecified
-            (LET el == ElemsOf(c, vs[1]) IN
-             IF ~el.ok THEN Unspec(c, "unpack-kind")
-             ELSE Rt([c EXCEPT !.env = BindSeq(@, node.ns, el.s, 1)], VBot))
+            (IF HasMeta(c, vs[1], "@next") THEN MPull(c, node, vs[1], <<>>)
+             ELSE IF HasMeta(c, vs[1], "@iterator") THEN
+                MetaCall(c, MetaVal(c, vs[1], "@iterator"), vs[1], <<>>, [t |-> "miter", node |-> node])
+             ELSE LET el == ElemsOf(c, vs[1]) IN
+                  IF ~el.ok THEN Unspec(c, "unpack-kind")
+                  ELSE Rt([c EXCEPT !.env = BindSeq(@, node.ns, el.s, 1)], VBot))
       [] node.k = "iasg" -> (IF HasMeta(c, vs[1], "@index_assign")
                              THEN MetaCall(c, MetaVal(c, vs[1], "@index_assign"), vs[1], <<vs[2], vs[3]>>, [t |-> "discard"])
                              ELSE IndexAssign(c, vs[1], vs[2], vs[3]))
